@@ -135,6 +135,7 @@ class Source:
             tree = ast.parse(text, filename=str(p))
         except SyntaxError as e:
             raise AnalysisError(f"cannot parse {p}: {e}")
+        _inline_single_use_temporaries(tree)
         self.nfiles += 1
         self.nlines += text.count("\n")
         self.modules[name] = Module(name, p, str(p.relative_to(self.repo)), tree, text, is_pkg)
@@ -448,3 +449,52 @@ def load(repo: Path | None = None) -> Source:
 
 def stmt_text(node) -> str:
     return " ".join(ast.unparse(node).split())
+
+
+def _inline_single_use_temporaries(tree):
+    """Canonical form for the rules that look at statements: a local that is assigned once and used once, in the very next statement,
+    as the test of an `if` / `while` or as the value of a `return`, is replaced by its definition
+
+        tmp = EXPR            if EXPR:                 tmp = EXPR
+        if tmp: ...     ->        ...                  return tmp     ->     return EXPR
+
+    (`tmp` occurring nowhere else in the function).  The two forms are equivalent; the analyses then see one of them."""
+    for fn in ast.walk(tree):
+        if not isinstance(fn, (ast.FunctionDef, ast.AsyncFunctionDef)):
+            continue
+        uses = {}
+        for n in ast.walk(fn):
+            if isinstance(n, ast.Name):
+                uses.setdefault(n.id, []).append(n)
+        declared = {x for n in ast.walk(fn) if isinstance(n, (ast.Global, ast.Nonlocal)) for x in n.names}
+
+        def fix(body):
+            out = []
+            i = 0
+            while i < len(body):
+                st = body[i]
+                nxt = body[i + 1] if i + 1 < len(body) else None
+                if isinstance(st, ast.Assign) and len(st.targets) == 1 and isinstance(st.targets[0], ast.Name) and nxt is not None:
+                    nm = st.targets[0].id
+                    occ = uses.get(nm, [])
+                    slot = None
+                    if isinstance(nxt, (ast.If, ast.While)) and isinstance(nxt.test, ast.Name) and nxt.test.id == nm:
+                        slot = "test"
+                    elif isinstance(nxt, ast.Return) and isinstance(nxt.value, ast.Name) and nxt.value.id == nm:
+                        slot = "value"
+                    if slot and len(occ) == 2 and nm not in declared and not isinstance(nxt, ast.While):
+                        setattr(nxt, slot, st.value)
+                        i += 1
+                        continue
+                out.append(st)
+                i += 1
+            for st in out:
+                for field in ("body", "orelse", "finalbody"):
+                    sub = getattr(st, field, None)
+                    if isinstance(sub, list) and sub and isinstance(sub[0], ast.stmt):
+                        setattr(st, field, fix(sub))
+                for h in getattr(st, "handlers", []) or []:
+                    h.body = fix(h.body)
+            return out
+
+        fn.body = fix(fn.body)
